@@ -11,20 +11,27 @@ extern void sb_append(StringBuilder *sb, const char *str);
 void generate_math_utility_builtins(StringBuilder *sb) {
     sb_append(sb, "/* ========== Math and Utility Built-in Functions ========== */\n\n");
 
-    /* abs function - works with int and float via macro */
+    /* abs/min/max work with int and float: _Generic selects a function, so that
+     * each argument expression is evaluated exactly once */
+    sb_append(sb, "static inline int64_t nl_abs_int(int64_t x) { return x < 0 ? -x : x; }\n");
+    sb_append(sb, "static inline double nl_abs_float(double x) { return x < 0.0 ? -x : x; }\n");
     sb_append(sb, "#define nl_abs(x) _Generic((x), \\\n");
-    sb_append(sb, "    double: (double)((x) < 0.0 ? -(x) : (x)), \\\n");
-    sb_append(sb, "    default: (int64_t)((x) < 0 ? -(x) : (x)))\n\n");
+    sb_append(sb, "    double: nl_abs_float, \\\n");
+    sb_append(sb, "    default: nl_abs_int)(x)\n\n");
 
     /* min function */
+    sb_append(sb, "static inline int64_t nl_min_int(int64_t a, int64_t b) { return a < b ? a : b; }\n");
+    sb_append(sb, "static inline double nl_min_float(double a, double b) { return a < b ? a : b; }\n");
     sb_append(sb, "#define nl_min(a, b) _Generic((a), \\\n");
-    sb_append(sb, "    double: (double)((a) < (b) ? (a) : (b)), \\\n");
-    sb_append(sb, "    default: (int64_t)((a) < (b) ? (a) : (b)))\n\n");
+    sb_append(sb, "    double: nl_min_float, \\\n");
+    sb_append(sb, "    default: nl_min_int)((a), (b))\n\n");
 
     /* max function */
+    sb_append(sb, "static inline int64_t nl_max_int(int64_t a, int64_t b) { return a > b ? a : b; }\n");
+    sb_append(sb, "static inline double nl_max_float(double a, double b) { return a > b ? a : b; }\n");
     sb_append(sb, "#define nl_max(a, b) _Generic((a), \\\n");
-    sb_append(sb, "    double: (double)((a) > (b) ? (a) : (b)), \\\n");
-    sb_append(sb, "    default: (int64_t)((a) > (b) ? (a) : (b)))\n\n");
+    sb_append(sb, "    double: nl_max_float, \\\n");
+    sb_append(sb, "    default: nl_max_int)((a), (b))\n\n");
 
     /* Math functions - wrappers around C standard library math.h */
     sb_append(sb, "/* Trigonometric functions */\n");
